@@ -87,14 +87,15 @@ PROPS["C10"] = dict(
     technique="Verus contract on state::insert_block (iff + atomic reject) over assumed contracts of ValidationContext::new / push; validity = unit valid",
     level_text="unbounded deductive proof that insert_block succeeds iff the parent is in the unstable tree, the block is not already a child of it and "
                "block validation succeeds at the message time; on failure the whole state is unchanged; on success exactly that block is appended",
-    level_note="ValidationContext::new, unstable_blocks::push, BlockValidator::validate_block are callees with ASSUMED contracts here "
-               "(closure pipelines / Rc<RefCell<dyn>>); decode totality of rust-bitcoin on arbitrary bytes is a dependency",
+    level_note="the admission checks of ValidationContext::new (connected? already a child of its parent?) are verified as a slice against the same "
+               "ctx_error_spec insert_block relies on, on top of BlockTree::get_chain_with_tip proved as a whole (`any` desugared by rule R15); unstable_blocks::push and "
+               "BlockValidator::validate_block are callees with ASSUMED contracts here (find_mut returning &mut / Rc<RefCell<dyn>>; unit valid); decode totality of rust-bitcoin on arbitrary bytes is a dependency",
     explanation="insert_block extracted verbatim; `?` conversions through the extracted From impls; the `expect` on push is discharged from the contract "
                 "'push succeeds iff the parent is in the tree'. Meaning of 'valid' is C11/C12 (unit valid).",
     unverified_links=[
         "heartbeat::maybe_process_response (closure passed to with_state_mut, consensus_decode): order of processing, counters, dropping the rest of a response",
         "state::insert_next_block_headers (announced headers; entry-API NextBlockHeaders)",
-        "ValidationContext::new / unstable_blocks::push bodies",
+        "ValidationContext::new's second half (the `.map(..).collect()` pipeline building the header chain) and its glue; unstable_blocks::push body",
     ],
     assumptions=COMMON_ASSUMPTIONS + ["block.hash is the hash of block.header (ic_btc_types::Block)"],
 )
